@@ -55,7 +55,7 @@ impl DirectoryPackCreator {
         self.indexes.push(index);
     }
 
-    pub fn finalize(self) -> std::io::Result<FinalizedDirectoryPackCreator> {
+    pub fn finalize(mut self) -> std::io::Result<FinalizedDirectoryPackCreator> {
         info!("======= Finalize creation =======");
 
         info!("----- Finalize value_stores -----");
@@ -64,6 +64,11 @@ impl DirectoryPackCreator {
         }
 
         info!("----- Finalize entry_stores -----");
+        // Entries may reference entries of another store:
+        // all positions must be final before any store sizes its columns.
+        for entry_store in &mut self.entry_stores {
+            entry_store.set_final_positions();
+        }
         let finalized_entry_stores: Vec<Box<dyn WritableTell>> = self
             .entry_stores
             .into_iter()
